@@ -2,6 +2,7 @@ package mon
 
 import (
 	"fmt"
+	"sort"
 	"strconv"
 	"strings"
 
@@ -157,13 +158,18 @@ func c18() *core.Check {
 		// operator, another literal, comment) without white space
 		us = append(us, gen.RangeUnits("glue", uint64(len(c18Glue)*341), 6000, "")...)
 		us = append(us, gen.RangeUnits("dglue", uint64(len(c18Glue)*3*341), 6000, "")...)
+		// literals behind SQL words that introduce special literal syntax elsewhere
+		// (ESCAPE, UESCAPE, DELIMITER, date / interval / charset introducers)
+		us = append(us, gen.RangeUnits("wordpre", uint64(len(c18WordPres)), 4, "")...)
+		// back-quoted names whose whole content is a function name of the table
+		us = append(us, core.Unit{Gen: "btfunc", Lo: 0, Hi: 1})
 		// bodies that start with a BOM or other multi-byte / high / NUL prefix
 		us = append(us, gen.RangeUnits("bodypre", uint64(len(litForms)*len(c18Prefixes)), 64, "")...)
 		return us
 	}
 	return &core.Check{
 		ID: "C18",
-		Rule: "for every literal form (real ' \" `, virtual quote in the four quoted modes, n' N' e' E' u&' U&', @' @\" @` @@' @@`) bodies over {delimiter, backslash, x, other quote} exhaustively up to length 7 (thorough 11) and periodic bodies U.V.U.V for all U,V up to length 3 (5), behind nine SQL prefixes (incl. backslashes before the opener); q-quotes for all 223 delimiter bytes >= 33 x bodies over {b, close(b), ', x} up to 5 (7), q/Q/nq/Nq; dollar quotes with tags of length 0-3 x bodies over {$, tag letter, x, y} up to 6 (9); the same literals embedded in random SQL; bodies of length 6 over {delimiter, backslash, x, 0xA9, U+00E9} and of length 5 over {delimiter, backslash, x, U+0100+d, U+0600+d, U+2000+d} for every form; bodies behind a BOM / high-byte / NUL prefix; backslash runs of 29-36, 61-66, 127-130, 255-258, 1023-1025 and 4097 in front of a delimiter for every form; q-quotes whose delimiter byte is the lead byte of a multi-byte UTF-8 character with bodies over {lead byte, continuation bytes, ', x, whole character}; dollar tags with the tag in another letter case inside the body, and tags of 2-256 letters with cut-off / extended closers; bodies of length 6 over {delimiter, x, blank, LF, CR LF} for every form (adjacent literals on the next line); real-quote, variable and dollar literals of body length 0-4 glued without white space to 24 preceding tokens (numbers, hex, closing brackets, operators, comments, other literals); virtual-quote literals additionally on a state that has been through the earlier readings of the cascade. " +
+		Rule: "for every literal form (real ' \" `, virtual quote in the four quoted modes, n' N' e' E' u&' U&', @' @\" @` @@' @@`) bodies over {delimiter, backslash, x, other quote} exhaustively up to length 7 (thorough 11) and periodic bodies U.V.U.V for all U,V up to length 3 (5), behind nine SQL prefixes (incl. backslashes before the opener); q-quotes for all 223 delimiter bytes >= 33 x bodies over {b, close(b), ', x} up to 5 (7), q/Q/nq/Nq; dollar quotes with tags of length 0-3 x bodies over {$, tag letter, x, y} up to 6 (9); the same literals embedded in random SQL; bodies of length 6 over {delimiter, backslash, x, 0xA9, U+00E9} and of length 5 over {delimiter, backslash, x, U+0100+d, U+0600+d, U+2000+d} for every form; bodies behind a BOM / high-byte / NUL prefix; backslash runs of 29-36, 61-66, 127-130, 255-258, 1023-1025 and 4097 in front of a delimiter for every form; q-quotes whose delimiter byte is the lead byte of a multi-byte UTF-8 character with bodies over {lead byte, continuation bytes, ', x, whole character}; dollar tags with the tag in another letter case inside the body, and tags of 2-256 letters with cut-off / extended closers; bodies of length 6 over {delimiter, x, blank, LF, CR LF} for every form (adjacent literals on the next line); real-quote, variable and dollar literals of body length 0-4 glued without white space to 24 preceding tokens (numbers, hex, closing brackets, operators, comments, other literals); real-quote and dollar literals (the latter under both dialect flags) behind 36 SQL words that introduce special literal syntax elsewhere (ESCAPE, UESCAPE, DELIMITER, date / interval / charset introducers); back-quoted names whose whole content is a function name of the table; virtual-quote literals additionally on a state that has been through the earlier readings of the cascade. " +
 			"The string token (content start, content end taken from the scan offset after the token, closed?, open/close marks, resume offset) is compared with the first-terminator oracle. Non-trivial = bodies holding a delimiter or backslash; distinct by input+form.",
 		Plan: plan,
 		Gen: func(w *core.Worker, u core.Unit, emit func(core.Case)) {
@@ -316,6 +322,44 @@ func c18() *core.Check {
 						emitLit(fi, "a"+d+tail, 5, emit)
 					}
 				}
+			case "wordpre":
+				for i := u.Lo; i < u.Hi; i++ {
+					pre := c18WordPres[i]
+					for fi, f := range litForms {
+						if f.opener == "" || !strings.ContainsAny(f.opener[:1], "'\"`") {
+							continue
+						}
+						d := string([]byte{f.delim})
+						for _, body := range []string{"\\" + d + " or 1=1 -- " + d, "a" + d + " or 1", d, "\\" + d, "x" + d + "y" + d, "", "!" + d + " union select 1", "\\\\" + d + "z" + d} {
+							emit(core.Case{In: pre + f.opener + body, Kind: "quoted", A: int64(len(pre) + len(f.opener)), C: int64(fi)})
+						}
+					}
+					for _, op := range []string{"$$", "$t$", "$body$"} {
+						for _, body := range []string{" union select 1 " + op + " or 1=1", "a" + op + "b", "", "$", "x" + op[:len(op)-1], " " + op + " " + op} {
+							for m := int64(0); m < 2; m++ {
+								emit(core.Case{In: pre + op + body, Kind: "dollar", A: int64(len(pre) + len(op)), S: op, C: m})
+							}
+						}
+					}
+				}
+			case "btfunc":
+				var keys []string
+				for k, v := range keywords() {
+					if v == 'f' && !strings.ContainsAny(k, " `") && len(k) < 31 {
+						keys = append(keys, strings.ToLower(k))
+					}
+				}
+				sort.Strings(keys)
+				for i, k := range keys {
+					for fi, f := range litForms {
+						if f.delim != '`' || f.opener == "" {
+							continue
+						}
+						for _, body := range []string{k + "`", k + "`(1)", k, k + "``x`", strings.ToUpper(k) + "` or 1"} {
+							emitLit(fi, body, i, emit)
+						}
+					}
+				}
 			case "bodypre":
 				for i := u.Lo; i < u.Hi; i++ {
 					fi := int(i) / len(c18Prefixes)
@@ -441,6 +485,9 @@ func enumUpTo4(al []string, i uint64, buf []byte) []byte {
 	return gen.Enum(al, l, i, buf)
 }
 
+var c18WordPres = []string{"escape ", "like 'a' escape ", "ESCAPE\n", "x like 'a%' escape ", "uescape ", "u&'a' uescape ", "delimiter ", "DELIMITER ", "1 #\ndelimiter ", "1 -- x\ndelimiter ", "Delimiter\t", "collate ", "charset ", "character set ",
+	"interval ", "date ", "timestamp ", "time ", "as ", "into outfile ", "load_file(", "regexp ", "rlike ", "like ", "not like ", "binary ", "_utf8 ", "in (", "concat(", "select ", "1 or ", "against (", "= ", "|| ", "similar to ", "at time zone "}
+
 var c18BsRuns = []int{29, 30, 31, 32, 33, 34, 35, 36, 61, 62, 63, 64, 65, 66, 127, 128, 129, 130, 255, 256, 257, 258, 1023, 1024, 1025, 4097}
 
 // two-, three- and four-byte characters, and lead bytes with the wrong number of continuation bytes
@@ -531,6 +578,9 @@ func checkLiteral(w *core.Worker, c core.Case) string {
 		wantOpen, wantClose = 'q', 'q'
 	case "dollar":
 		mode = sqlModes[0]
+		if c.C == 1 {
+			mode = sqlModes[1] // the same literal under the MySQL flag
+		}
 		idx := strings.Index(content, c.S)
 		if idx < 0 {
 			wantLen, closed = len(content), false
